@@ -1830,9 +1830,29 @@ fn parse_type_arguments(
 
     let mut args = vec![];
     let close_pos = loop {
-        if let Some(token) = tokens.peek() {
-            if token.text == ">" {
-                break token.position;
+        match tokens.peek() {
+            Some(token) => {
+                if token.text == ">" {
+                    break token.position;
+                }
+            }
+            None => {
+                // The file ends after `<` or `,`. Don't try to parse
+                // a type here: with no tokens left we'd see the same
+                // `<` again and recurse forever.
+                let position = match tokens.prev() {
+                    Some(prev_token) => prev_token.position,
+                    None => Position::todo(&tokens.vfs_path),
+                };
+                diagnostics.push(ParseError::Incomplete {
+                    position: position.clone(),
+                    message: ErrorMessage(vec![
+                        msgtext!("Expected a type or "),
+                        msgcode!(">"),
+                        msgtext!(" after this, but reached the end of the file."),
+                    ]),
+                });
+                break position;
             }
         }
         let arg = parse_type_hint(tokens, id_gen, diagnostics);
